@@ -164,6 +164,42 @@ def check_set(core, parser, v, ec, rec):
     except Exception as e:
         rec.violation('raised:%s:build' % type(e).__name__, case, {'exc': repr(e)[:200]})
         return
+    # ---- a segment prepared on its own (written and read back, so anything it remembers is filled), then added to a message
+    # built with this set: from then on the message's characters govern it, for reading back and for splitting new text
+    rec.evaluation((v, ec_tuple(ec), 'moved-subtree'))
+    try:
+        m5 = core.Message('ADT_A01', version=v, encoding_chars=dict(ec))
+        m5.msh.msh_7 = '20200101120000'
+        sg = core.Segment(seg, version=v)
+        setattr(sg, row.name.lower(), 'w1')
+        for e in treeinv.walk(sg):
+            e.encoding_chars, e.to_er7()
+        getattr(sg, row.name.lower()).to_er7()
+        m5.add(sg)
+        for e in treeinv.walk(sg):
+            rec.count('descendants_checked')
+            if e.encoding_chars != exp:
+                rec.violation('descendant-encoding_chars-differs:moved-subtree', case, {'element': repr(e),
+                                                                                         'got': e.encoding_chars})
+                return
+        # text holding this set's separators, assigned through the moved segment, is split with them
+        sg.add_field(row.name).value = rep_text(ec, crow, 2, subs)
+        line = [l for l in m5.to_er7().split('\r') if l.startswith(seg)]
+        want = seg + ec['FIELD'] * row.num + ec['COMPONENT'] * (crow.num - 1) + 'w1' + ec['REPETITION'] + rep_text(ec, crow, 2, subs)
+        rec.count('moved_subtree_checks')
+        if crow.num == 1 and line != [want]:
+            rec.violation('moved-subtree-splits-text-with-other-characters', case, {'line': line, 'want': want})
+            return
+        elif crow.num != 1:
+            got_tok = er7ref.tokenize_segment(line[0], ec)[1] if line else None
+            fld = got_tok[row.num - 1] if got_tok and len(got_tok) >= row.num else None
+            if not fld or len(fld) != 2 or er7ref.shape([fld])[0][1][1] != er7ref.shape(
+                    [er7ref.tokenize_segment(seg + ec['FIELD'] + rep_text(ec, crow, 2, subs), ec)[1][0]])[0][1][0]:
+                rec.violation('moved-subtree-splits-text-with-other-characters', case, {'line': line})
+                return
+    except Exception as e:
+        rec.violation('raised:%s:moved-subtree' % type(e).__name__, case, {'exc': repr(e)[:200]})
+        return
     # ---- parser path
     rec.evaluation((v, ec_tuple(ec), 'parse'))
     try:
